@@ -83,13 +83,14 @@ def run(c):
                                                   rule="run ended with violations; see replay files", antecedents=st))
     need = ["states", "blocks", "units", "nestedUnits", "failedUnits", "effectiveUnits", "faultsFired", "faultsNested", "itemsFailed", "toys", "toysAborting",
             "facets", "facetsApplied", "facetsV1Applied", "facetsBorrowApplied", "facetsUntouched", "facetsEnvFault", "multiAppSweeps",
-            "stages", "stagesFailedWithWork", "oracleRounds", "oracleZeroRounds", "oracleRebuildRounds", "histSteps"]
+            "stages", "stagesFailedWithWork", "oracleRounds", "oracleZeroRounds", "oracleRebuildRounds", "histSteps",
+            "starters", "startersV1Started", "startersV2Started", "startersEnvFault", "gateBlocks150", "panickedUnits"]
     zero = [k for k in need if st.get(k, 0) == 0]
     if zero and not c.violations:   # a violation on real-code states is a verdict whatever the coverage
         raise vlib.NoVerdict("vacuous run, zero antecedent counters %s: %s" % (zero, st))
     if m1.get("transitions_dumped", 0) != st["toys"]:
         raise vlib.NoVerdict("model behaviours dumped (%s) != executed on the real wrapper (%s)" % (m1.get("transitions_dumped"), st["toys"]))
-    cases = st["toys"] + st["faults"] + st["units"] + st["items"] + st["blocks"] + st["dryRuns"] + st["facets"] + st["stages"]
+    cases = st["toys"] + st["faults"] + st["units"] + st["items"] + st["blocks"] + st["dryRuns"] + st["facets"] + st["stages"] + st["starters"]
     nontrivial = st["toysAborting"] + st["faultsFired"] + st["failedUnits"] + st["itemsFailed"]
     return c.finish("fault_enumeration", dict(
         evaluations=cases, distinct_nontrivial=nontrivial,
